@@ -48,6 +48,22 @@ KINDS = {
     "name_mb": ("\u00e9t\u00e9", None),
     "multiline_mb": ("(aa +\n    '\u00e9\u00e9' + bb)", None),
     "def_mb": ("def fn(a):\n    return '\u2192' + a", None),
+    # several occurrences at different depths, the first one in source order NOT the shallowest (added after the seeded
+    # change C13-match-via-search: the search order of the tree walk is not source order); third element = the pattern
+    "name_deep_first": ("zz.bar(zz)", None, "zz"),
+    "name_in_target_and_value": ("zz.y = g(zz)", None, "zz"),
+    "name_binop_repeat": ("(zz + 1) * zz", None, "zz"),
+    "call_nested_same": ("f(f(x), f(1))", "f({{...*}})", "f({{...*}})"),
+    "call_of_call": ("g(h(zz))(zz)", "{{c}}(zz)", "zz"),
+    "subscript_chain": ("zz[zz[0]]", "zz[{{i}}]", "zz"),
+    "stmt_repeated": ("k = f(x); k = f(x)", "k = {{v}}", "k = f(x)"),
+    "lambda_nested": ("lambda a: (lambda a: a + 1)", "lambda {{a}}: {{b}}", "a"),
+    # decorator spellings
+    "decorated_space": ("@ dec\ndef fn(a):\n    return a", None),
+    "decorated_paren": ("@(dec)\ndef fn(a):\n    return a", None),
+    "decorated_call_multiline": ("@dec(\n    1,\n)\ndef fn(a):\n    return a", None),
+    "decorated_async": ("@dec\nasync def fn(a):\n    return a", None),
+    "class_oneline_comment_at": ("class Cl: pass  # @", None),
 }
 
 
@@ -94,7 +110,7 @@ def positions(src_layout, lname):
 
 def units(tier):
     for kind in KINDS:
-        code, wpat = KINDS[kind]
+        code, wpat = KINDS[kind][:2]
         block = "\n" in code and kind != "paren_multiline"
         for lname, _ in layouts(code, block):
             yield {"kind": kind, "layout": lname}
@@ -123,7 +139,7 @@ def ref_span(node, src):
     decs = getattr(node, "decorator_list", None)
     if decs:
         d0 = min(decs, key=lambda d: (d.lineno, d.col_offset))
-        start = off(d0.lineno, d0.col_offset) - 1
+        start = src.rfind("@", 0, off(d0.lineno, d0.col_offset))  # '@ dec', '@(dec)': the '@' need not be adjacent
     return start, off(node.end_lineno, node.end_col_offset)
 
 
@@ -137,11 +153,11 @@ def ref_linecol(src, start):
 def check_case(kind, lname, pname, pat_kind):
     from pyrefact import pattern_matching as pm
 
-    code, wpat = KINDS[kind]
+    code, wpat = KINDS[kind][:2]
     block = "\n" in code and kind != "paren_multiline"
     base = dict(layouts(code, block))[lname]
     src = dict(positions(base, lname))[pname]
-    pat = code if pat_kind == "own" else wpat
+    pat = (KINDS[kind][2] if len(KINDS[kind]) > 2 else code) if pat_kind == "own" else wpat
     desc = {"kind": kind, "layout": lname, "position": pname, "pattern": pat_kind}
     try:
         tree = ast.parse(src)
@@ -229,7 +245,7 @@ def check_case(kind, lname, pname, pat_kind):
 def run_unit(unit):
     res = {"n": 0, "nontrivial": [], "viol": [], "stats": {}, "samples": []}
     kind, lname = unit["kind"], unit["layout"]
-    code, wpat = KINDS[kind]
+    code, wpat = KINDS[kind][:2]
     for pname in ("only", "first", "last", "middle"):
         for pat_kind in ("own", "wild"):
             if pat_kind == "wild" and not wpat:
@@ -252,7 +268,7 @@ def replay(desc):
 
 
 def explain(desc):
-    code, wpat = KINDS[desc["kind"]]
+    code, wpat = KINDS[desc["kind"]][:2]
     block = "\n" in code and desc["kind"] != "paren_multiline"
     base = dict(layouts(code, block))[desc["layout"]]
-    return "source: %r\npattern: %r" % (dict(positions(base, desc["layout"]))[desc["position"]], code if desc["pattern"] == "own" else wpat)
+    return "source: %r\npattern: %r" % (dict(positions(base, desc["layout"]))[desc["position"]], (KINDS[desc["kind"]][2] if len(KINDS[desc["kind"]]) > 2 else code) if desc["pattern"] == "own" else wpat)
